@@ -1153,6 +1153,20 @@ class TCPConnector(BaseConnector):
 
         return waiters
 
+    def _release(
+        self,
+        key: "ConnectionKey",
+        protocol: ResponseHandler,
+        *,
+        should_close: bool = False,
+    ) -> None:
+        if should_close and key.is_ssl and self._ssl_shutdown_timeout == 0:
+            # The exchange was given up (timeout, cancellation, error). A
+            # graceful TLS shutdown waits for the close_notify of a peer that
+            # may have stalled, keeping the socket open outside the pool.
+            protocol.abort()
+        super()._release(key, protocol, should_close=should_close)
+
     @property
     def family(self) -> int:
         """Socket family like AF_INET."""
